@@ -48,7 +48,7 @@ REQUIRED = ['ned_matrix_orthogonal', 'enu_matrix_orthogonal', 'ned_matrix_det', 
             'cardano_sigma', 'heik_P_sextic', 'heik_factor', 'foot_quartic', 'heik_other_factor_neg', 'heik_R0_eq', 'heik_G_pos',
             'heik_chain', 'cE2_lt_small', 'domain_B', 'heikR0_exact', 'inverse_lat_height_exact', 'ecfValid_forward',
             'inverse_exact_on_domain', 'inverse_exact_at_poles', 'height_range_in_inverse_domain', 'inverse_exact',
-            'inverse_exact_on_surface', 'inverse_on_polar_axis', 'inverse_unique',
+            'inverse_exact_on_surface', 'inverse_on_polar_axis', 'inverse_unique', 'forward_inverse_on_image',
             # Props/C12Bridge.lean: Gen.Geo (regenerated from geocoords.py on every run) = Spec.Geo, by rfl
             'gen_constants_eq', 'gen_geodeticToEcfLL_eq', 'gen_ecfValid_eq', 'gen_ecfToGeodeticLL_eq', 'gen_nedMatrix_eq',
             'gen_enuMatrix_eq', 'gen_inverse_exact', 'gen_forward_injective']
